@@ -112,6 +112,20 @@ pub fn drive<F: Future>(fut: F, polls: &mut usize) -> F::Output {
 }
 
 pub const ELSEWHERE: &str = "ctx-elsewhere";
+pub const DBG_SPAN: &str = "dbg-fmt";
+pub const DBG_EVENT: &str = "dbg-ev";
+
+/// an argument type whose `Debug` impl is itself instrumented: formatting it (as a `#[trace]`
+/// property does) enters a local span and adds an event
+#[derive(Clone, Copy, PartialEq)]
+pub struct TracedDbg(pub i64);
+impl std::fmt::Debug for TracedDbg {
+    fn fmt(&self, f: &mut std::fmt::Formatter<'_>) -> std::fmt::Result {
+        let _l = fastrace::local::LocalSpan::enter_with_local_parent(DBG_SPAN);
+        fastrace::local::LocalSpan::add_event(fastrace::Event::new(DBG_EVENT));
+        write!(f, "T({})", self.0)
+    }
+}
 
 /// drive a future under a local span of the harness (a place other than the call site)
 pub fn drive_elsewhere<F: Future>(fut: F, polls: &mut usize) -> F::Output {
